@@ -212,6 +212,17 @@ theorem uniqueNeighborhoods_spec (G : SimpleG) (N : List Nat) :
     N ∈ uniqueNeighborhoods G ↔ ∃ v, 1 ≤ v ∧ v ≤ G.n ∧ N = closedNbr G v :=
   mem_uniqueNeighborhoods
 
+/-- "Each neighborhood is listed just once. Each one is sorted and they are enumerated in a sorted
+fashion": the list is strictly increasing for Python's list order (`lexLe`), hence duplicate-free
+— one clause per distinct closed neighbourhood — and every member is a sorted list -/
+theorem uniqueNeighborhoods_once (G : SimpleG) :
+    (uniqueNeighborhoods G).Pairwise (fun a b => lexLe a b = true ∧ a ≠ b) ∧
+    (uniqueNeighborhoods G).Nodup ∧
+    ∀ N ∈ uniqueNeighborhoods G, N.Pairwise (· ≤ ·) := by
+  refine ⟨uniqueNeighborhoods_sorted G, uniqueNeighborhoods_nodup G, fun N hN => ?_⟩
+  obtain ⟨v, _, _, rfl⟩ := mem_uniqueNeighborhoods.1 hN
+  exact closedNbr_sorted G v
+
 theorem closedNbr_spec (G : SimpleG) (v u : Nat) : u ∈ closedNbr G v ↔ u = v ∨ u ∈ G.nbrs v :=
   mem_closedNbr
 
